@@ -61,6 +61,10 @@ fn cap_result<const M: usize>(s: &str) -> Result<Result<(), ()>, String> {
     .map_err(crate::sut::panic_message)
 }
 
+pub fn check_capacity_pub(index: u64, m: usize, s: &str, st: &mut Stats) {
+    check_capacity(index, m, s, st)
+}
+
 fn check_capacity(index: u64, m: usize, s: &str, st: &mut Stats) {
     st.evaluations += 1;
     st.transitions += 1;
